@@ -66,3 +66,27 @@ def export_atmosphere(path=None):
         json.dump(doc, f)
     os.replace(tmp, path)
     return path
+
+
+def cloud_map(month, version=0):
+    from astropy.io import fits
+    path = os.path.join(DATA, "cloud_maps", f"nss_map_CloudTopPressure_{month:02d}.v{version}.fits")
+    with fits.open(path) as h:
+        return np.array(h[0].data, dtype=float)
+
+
+def export_cloud_map(month, path=None):
+    """monthly cloud-top pressure map (read with astropy.io.fits directly) on the grids the lookup is specified on"""
+    path = path or os.path.join(BUILD, f"cloud_map_{month:02d}.json")
+    src = os.path.join(DATA, "cloud_maps", f"nss_map_CloudTopPressure_{month:02d}.v0.fits")
+    if os.path.exists(path) and os.path.getmtime(path) >= os.path.getmtime(src):
+        return path
+    m = cloud_map(month)
+    doc = {"lat": bits_array(np.linspace(-90, 90, m.shape[0])), "lon": bits_array(np.linspace(-180, 180, m.shape[1])),
+           "p": bits_array(m)}
+    os.makedirs(os.path.dirname(path), exist_ok=True)
+    tmp = path + f".{os.getpid()}.tmp"
+    with open(tmp, "w") as f:
+        json.dump(doc, f)
+    os.replace(tmp, path)
+    return path
